@@ -233,6 +233,11 @@ def entry_depths(prog, la, exempt_names):
                 if not s:
                     continue
                 for call in la.node_calls(f, n):
+                    # a node that was unlinked inside the critical section is private afterwards (named exemption):
+                    # handing it to a helper does not make the helper an unlocked accessor of shared state
+                    argroots = [root_var(a) for a in children(call)[1:]]
+                    if any(r and (f.name, r[2] if len(r) > 2 else '') in EXEMPT_ACCESS for r in argroots):
+                        continue
                     for c in prog.callees(f.unit, call):
                         if isinstance(c, Ext) or not c.static:
                             continue
